@@ -178,6 +178,9 @@ static void build_items()
     I.push_back(range_abc("range:a-b-c:int", "10", "8", "2", {pf::I(10), pf::I(8), pf::I(6), pf::I(4), pf::I(2)}, false, true));
     I.push_back(range_abc("range:a-b-c:int", "-3", "0", "9", {pf::I(-3), pf::I(0), pf::I(3), pf::I(6), pf::I(9)}));
     I.push_back(range_abc("range:a-b-c:h", "1h", "3h", "9h", {pf::H(1), pf::H(3), pf::H(5), pf::H(7), pf::H(9)}));
+    I.push_back(range_abc("range:a-b-c:h-wide-step", "0h", "5000000000h", "20000000000h", {pf::H(0), pf::H(5000000000LL), pf::H(10000000000LL), pf::H(15000000000LL), pf::H(20000000000LL)}));
+    I.push_back(range_abc("range:a-b-c:h-wide-step", "3h", "-4294967294h", "-12884901888h", {pf::H(3), pf::H(-4294967294LL), pf::H(-8589934591LL), pf::H(-12884901888LL)}));
+    I.push_back(range_abc("range:a-b-c:int-wide-span", "-2000000000", "-1200000000", "1200000000", {pf::I(-2000000000), pf::I(-1200000000), pf::I(-400000000), pf::I(400000000), pf::I(1200000000)}));
     I.push_back(range_abc("range:a-b-c:char", "'a'", "'c'", "'g'", {pf::C('a'), pf::C('c'), pf::C('e'), pf::C('g')}, false, true));
     I.push_back(range_abc("range:a-b-c:float", "0.0", "0.25", "1.0", {pf::Fl(0.0f), pf::Fl(0.25f), pf::Fl(0.5f), pf::Fl(0.75f), pf::Fl(1.0f)}, true, true));
     I.push_back(range_abc("range:a-b-c:float", "0.000", "0.333", "1.000", {pf::Fl(0.0f), pf::Fl(0.333f), pf::Fl(0.666f), pf::Fl(0.999f)}, true));
@@ -629,6 +632,38 @@ int main(int argc, char **argv)
             if(v.c != OK) vp::violation(std::string(CLAUSE[v.c]) + "|" + (e.msg ? "message" : "arg_vals") + "|manual-example:" + e.name, cid, v.detail + "; text=<" + vp::show(e.text) + ">; denotes " + pf::show(e.den));
         }
         if(!g_stop) g_done += "manual ";
+    }
+    // ---- long separators: a comment or a blank run of every length 1..LMAX between two values, alone and followed by a second comment line
+    {
+        const int LMAX = T ? 4000 : 1100;
+        struct Base { const char *name, *left, *right; List den; };
+        std::vector<Base> bases = {
+            {"int,int", "1", "2", {pf::I(1), pf::I(2)}},
+            {"string,char", "\"a\"", "'c'", {pf::Str("a"), pf::C('c')}},
+            {"array,int", "[1 2]", "3", {pf::Arr({pf::I(1), pf::I(2)}), pf::I(3)}},
+            {"range-abc,float", "1 2 ... 5", "0.5", {pf::I(1), pf::I(2), pf::I(3), pf::I(4), pf::I(5), pf::Fl(0.5f)}},
+        };
+        vp::bound("long_separators", "between two values: ' %' + L chars + newline; L blanks; the same followed by a second comment line; L = every 1.." + std::to_string(LMAX) + "; 4 value pairs; bare and behind an address");
+        idx = 0;
+        for(int L = 1; L <= LMAX; ++L) for(size_t b = 0; b < bases.size(); ++b) for(int form = 0; form < 3; ++form) for(int msg = 0; msg < 2; ++msg) {
+            uint64_t top = g_top++, my = idx++;
+            if(g_stop || !vp::mine(top)) continue;
+            std::string cid = "longsep:" + std::to_string(my) + ":L" + std::to_string(L);
+            if(!vp::want(cid)) continue;
+            if((top & 0xff) == 0 && vp::deadline_passed()) { g_stop = true; vp::cap("deadline: stopped in family 'longsep' at L=" + std::to_string(L)); break; }
+            vp::current_case() = cid; vp::state(); vp::eval(); vp::nontrivial(vp::fnv(cid));
+            std::string sep = form == 1 ? std::string(L, ' ') : " %" + std::string(L, 'c') + "\n";
+            if(form == 0 && L % 3 == 0) for(int k = 5; k < L; k += 11) sep[2 + k] = " [\"'%.x"[k % 7];     // syntax characters inside the comment
+            if(form == 2) sep += "  % second line\n ";
+            std::string text = std::string(bases[b].left) + sep + bases[b].right;
+            Verdict v = check_text(text, bases[b].den, false, msg, false);
+            vp::trace();
+            if(vp::replaying()) fprintf(stderr, "replay %s: text=<%s> verdict: %s %s\n", cid.c_str(), vp::show(text).c_str(), CLAUSE[v.c], v.detail.c_str());
+            vp::outcome(std::string("longsep|") + CLAUSE[v.c]);
+            if(v.c != OK) vp::violation(std::string(CLAUSE[v.c]) + "|" + (msg ? "message" : "arg_vals") + "|" + bases[b].name + "+" + (form == 1 ? "long-blank-run" : form == 2 ? "long-comment+comment" : "long-comment") + "@between-values", cid,
+                                        v.detail + "; separator of " + std::to_string(L) + " characters between <" + bases[b].left + "> and <" + bases[b].right + ">");
+        }
+        if(!g_stop) g_done += "longsep ";
     }
     return vp::finish();
 }
